@@ -128,155 +128,129 @@ package evm
 //@ func (s *StateDBWrapper) CreateAccount(addr)
 //@   requires s != nil && s.StateDB != nil
 //@   modifies everything
-//@   preserves StateDBWrapper.*, Account.*, mem(uint256.Int)
 //@   assert@call(CreateAccount,0): $arg0 == s.StateDB && $arg1 == addr   [C17]
 
 //@ func (s *StateDBWrapper) SubBalance(addr, amt)
 //@   requires s != nil && s.StateDB != nil
 //@   modifies everything
-//@   preserves StateDBWrapper.*, Account.*, mem(uint256.Int)
 //@   assert@call(SubBalance,0): $arg0 == s.StateDB && $arg1 == addr && $arg2 == amt   [C17]
 
 //@ func (s *StateDBWrapper) AddBalance(addr, amt)
 //@   requires s != nil && s.StateDB != nil
 //@   modifies everything
-//@   preserves StateDBWrapper.*, Account.*, mem(uint256.Int)
 //@   assert@call(AddBalance,0): $arg0 == s.StateDB && $arg1 == addr && $arg2 == amt   [C17]
 
 //@ func (s *StateDBWrapper) GetBalance(addr)
 //@   requires s != nil && s.StateDB != nil
 //@   modifies everything
-//@   preserves StateDBWrapper.*, Account.*, mem(uint256.Int)
 //@   assert@call(GetBalance,0): $arg0 == s.StateDB && $arg1 == addr   [C17]
 
 //@ func (s *StateDBWrapper) GetNonce(addr)
 //@   requires s != nil && s.StateDB != nil
 //@   modifies everything
-//@   preserves StateDBWrapper.*, Account.*, mem(uint256.Int)
 //@   assert@call(GetNonce,0): $arg0 == s.StateDB && $arg1 == addr   [C17]
 
 //@ func (s *StateDBWrapper) SetNonce(addr, n)
 //@   requires s != nil && s.StateDB != nil
 //@   modifies everything
-//@   preserves StateDBWrapper.*, Account.*, mem(uint256.Int)
 //@   assert@call(SetNonce,0): $arg0 == s.StateDB && $arg1 == addr && $arg2 == n   [C17]
 
 //@ func (s *StateDBWrapper) GetCodeHash(addr)
 //@   requires s != nil && s.StateDB != nil
 //@   modifies everything
-//@   preserves StateDBWrapper.*, Account.*, mem(uint256.Int)
 //@   assert@call(GetCodeHash,0): $arg0 == s.StateDB && $arg1 == addr   [C17]
 
 //@ func (s *StateDBWrapper) GetCode(addr)
 //@   requires s != nil && s.StateDB != nil
 //@   modifies everything
-//@   preserves StateDBWrapper.*, Account.*, mem(uint256.Int)
 //@   assert@call(GetCode,0): $arg0 == s.StateDB && $arg1 == addr   [C17]
 
 //@ func (s *StateDBWrapper) SetCode(addr, code)
 //@   requires s != nil && s.StateDB != nil
 //@   modifies everything
-//@   preserves StateDBWrapper.*, Account.*, mem(uint256.Int)
 //@   assert@call(SetCode,0): $arg0 == s.StateDB && $arg1 == addr && $arg2 == code   [C17]
 
 //@ func (s *StateDBWrapper) GetCodeSize(addr)
 //@   requires s != nil && s.StateDB != nil
 //@   modifies everything
-//@   preserves StateDBWrapper.*, Account.*, mem(uint256.Int)
 //@   assert@call(GetCodeSize,0): $arg0 == s.StateDB && $arg1 == addr   [C17]
 
 //@ func (s *StateDBWrapper) AddRefund(gas)
 //@   requires s != nil && s.StateDB != nil
 //@   modifies everything
-//@   preserves StateDBWrapper.*, Account.*, mem(uint256.Int)
 //@   assert@call(AddRefund,0): $arg0 == s.StateDB && $arg1 == gas   [C17]
 
 //@ func (s *StateDBWrapper) SubRefund(gas)
 //@   requires s != nil && s.StateDB != nil
 //@   modifies everything
-//@   preserves StateDBWrapper.*, Account.*, mem(uint256.Int)
 //@   assert@call(SubRefund,0): $arg0 == s.StateDB && $arg1 == gas   [C17]
 
 //@ func (s *StateDBWrapper) GetRefund()
 //@   requires s != nil && s.StateDB != nil
 //@   modifies everything
-//@   preserves StateDBWrapper.*, Account.*, mem(uint256.Int)
 //@   assert@call(GetRefund,0): $arg0 == s.StateDB   [C17]
 
 //@ func (s *StateDBWrapper) GetCommittedState(addr, hash)
 //@   requires s != nil && s.StateDB != nil
 //@   modifies everything
-//@   preserves StateDBWrapper.*, Account.*, mem(uint256.Int)
 //@   assert@call(GetCommittedState,0): $arg0 == s.StateDB && $arg1 == addr && $arg2 == hash   [C17]
 
 //@ func (s *StateDBWrapper) GetState(addr, hash)
 //@   requires s != nil && s.StateDB != nil
 //@   modifies everything
-//@   preserves StateDBWrapper.*, Account.*, mem(uint256.Int)
 //@   assert@call(GetState,0): $arg0 == s.StateDB && $arg1 == addr && $arg2 == hash   [C17]
 
 //@ func (s *StateDBWrapper) SetState(addr, key, value)
 //@   requires s != nil && s.StateDB != nil
 //@   modifies everything
-//@   preserves StateDBWrapper.*, Account.*, mem(uint256.Int)
 //@   assert@call(SetState,0): $arg0 == s.StateDB && $arg1 == addr && $arg2 == key && $arg3 == value   [C17]
 
 //@ func (s *StateDBWrapper) Suicide(addr)
 //@   requires s != nil && s.StateDB != nil
 //@   modifies everything
-//@   preserves StateDBWrapper.*, Account.*, mem(uint256.Int)
 //@   assert@call(Suicide,0): $arg0 == s.StateDB && $arg1 == addr   [C17]
 
 //@ func (s *StateDBWrapper) HasSuicided(addr)
 //@   requires s != nil && s.StateDB != nil
 //@   modifies everything
-//@   preserves StateDBWrapper.*, Account.*, mem(uint256.Int)
 //@   assert@call(HasSuicided,0): $arg0 == s.StateDB && $arg1 == addr   [C17]
 
 //@ func (s *StateDBWrapper) Exist(addr)
 //@   requires s != nil && s.StateDB != nil
 //@   modifies everything
-//@   preserves StateDBWrapper.*, Account.*, mem(uint256.Int)
 //@   assert@call(Exist,0): $arg0 == s.StateDB && $arg1 == addr   [C17]
 
 //@ func (s *StateDBWrapper) Empty(addr)
 //@   requires s != nil && s.StateDB != nil
 //@   modifies everything
-//@   preserves StateDBWrapper.*, Account.*, mem(uint256.Int)
 //@   assert@call(Empty,0): $arg0 == s.StateDB && $arg1 == addr   [C17]
 
 //@ func (s *StateDBWrapper) AddressInAccessList(addr)
 //@   requires s != nil && s.StateDB != nil
 //@   modifies everything
-//@   preserves StateDBWrapper.*, Account.*, mem(uint256.Int)
 //@   assert@call(AddressInAccessList,0): $arg0 == s.StateDB && $arg1 == addr   [C17]
 
 //@ func (s *StateDBWrapper) SlotInAccessList(addr, slot)
 //@   requires s != nil && s.StateDB != nil
 //@   modifies everything
-//@   preserves StateDBWrapper.*, Account.*, mem(uint256.Int)
 //@   assert@call(SlotInAccessList,0): $arg0 == s.StateDB && $arg1 == addr && $arg2 == slot   [C17]
 
 //@ func (s *StateDBWrapper) AddSlotToAccessList(addr, slot)
 //@   requires s != nil && s.StateDB != nil
 //@   modifies everything
-//@   preserves StateDBWrapper.*, Account.*, mem(uint256.Int)
 //@   assert@call(AddSlotToAccessList,0): $arg0 == s.StateDB && $arg1 == addr && $arg2 == slot   [C17]
 
 //@ func (s *StateDBWrapper) AddLog(log)
 //@   requires s != nil && s.StateDB != nil
 //@   modifies everything
-//@   preserves StateDBWrapper.*, Account.*, mem(uint256.Int)
 //@   assert@call(AddLog,0): $arg0 == s.StateDB && $arg1 == log   [C17]
 
 //@ func (s *StateDBWrapper) AddPreimage(hash, preimage)
 //@   requires s != nil && s.StateDB != nil
 //@   modifies everything
-//@   preserves StateDBWrapper.*, Account.*, mem(uint256.Int)
 //@   assert@call(AddPreimage,0): $arg0 == s.StateDB && $arg1 == hash && $arg2 == preimage   [C17]
 
 //@ func (s *StateDBWrapper) ForEachStorage(addr, cb, common.Hash)
 //@   requires s != nil && s.StateDB != nil
 //@   modifies everything
-//@   preserves StateDBWrapper.*, Account.*, mem(uint256.Int)
 //@   assert@call(ForEachStorage,0): $arg0 == s.StateDB && $arg1 == addr && $arg2 == cb   [C17]
